@@ -561,7 +561,7 @@ func recordResult(run *vlib.Run, batchIdx int, r *caseResult, c *gcase) {
 		w["top_thunder_frame"] = p.TopFrame
 		w["stack"] = p.Stack
 		w["expected"] = "the call returns an error or a value"
-		run.Violation(batchIdx, classifyPanic(c.Query, p.Value, p.TopFrame), w)
+		run.Violation(batchIdx, classifyPanic(c.allText(), p.Value, p.TopFrame), w)
 	}
 	for _, h := range r.Hangs {
 		w := c.witness()
@@ -619,7 +619,7 @@ func runM1Batch(run *vlib.Run, batchIdx, from, to int, zooDesc, gwDesc *schemaDe
 			w["expected"] = "the call returns an error or a value"
 			head := strings.SplitN(oc.crash, "\n", 2)[0]
 			run.Count("m1:fatal_crashes", 1)
-			run.Violation(batchIdx, classifyPanic(c.Query, head+" "+oc.crash, topThunderFrame(oc.crash)), w)
+			run.Violation(batchIdx, classifyPanic(c.allText(), head+" "+oc.crash, topThunderFrame(oc.crash)), w)
 		}
 		from = oc.lastCase + 1
 	}
